@@ -787,6 +787,11 @@ def _rand_index(rng, n):
     return ["arr", [rng.randint(-n, hi) for _ in range(rng.randint(0, n + 2))]]
 
 
+def _well_formed(p):
+    return (p["k"] == len(p["alph"]) and len(p["gaps"]) == len(p["rows"])
+            and all(len(r) == p["k"] for r in p["rows"]))
+
+
 def gen_profile_trace(item):
     """Random history of one SequenceProfile object."""
     from harness.tlabind.pool import progress
@@ -851,7 +856,8 @@ def gen_profile_trace(item):
             elif op in ("seqprob", "seqscore"):
                 pc = rng.choice([0, 0, 1, 2, -1])
                 bg = _rand_bg(rng, k) if op == "seqscore" else []
-                m = n if rng.random() < 0.9 else n + 1
+                x = rng.random()
+                m = n if x < 0.84 else n + 1 if x < 0.92 else max(n - 1, 0)
                 salph = alph
                 if alph == AMB and rng.random() < 0.5:
                     salph = DNA
@@ -908,8 +914,8 @@ def gen_profile_trace(item):
             ev["detail"] = obs["detail"]
         events.append(ev)
         cur = obs["p"]
-        if obs["oc"] == "Broken":
-            break
+        if obs["oc"] == "Broken" or not _well_formed(cur):
+            break       # the event itself is judged; nothing can be computed from such a state
     return {"events": events}
 
 
@@ -1156,7 +1162,7 @@ def _record_repo_tests(ctx):
 
 
 def run(ctx):
-    from harness.tlabind import helpers, pool
+    from harness.tlabind import helpers, pool, tlc
     from harness.tlabind.core import Vacuity
 
     quick = ctx.quick
@@ -1194,7 +1200,7 @@ def run(ctx):
     # ---- S1 + S2: histories ----------------------------------------------------------------
     _run_machine(ctx)
     # ---- S3: recorded runs -----------------------------------------------------------------
-    nsearch, nprof = (60, 150) if quick else (600, 1800)
+    nsearch, nprof = (100, 150) if quick else (800, 1800)
     items = [{"kind": "search", "seed": ctx.rng.randrange(1 << 30), "length": 12 if quick else 16,
               "maxlen": 60 if quick else 240} for _ in range(nsearch)]
     items += [{"kind": "profile", "seed": ctx.rng.randrange(1 << 30), "length": 14 if quick else 18,
@@ -1213,7 +1219,15 @@ def run(ctx):
         if r["events"]:
             traces.append(r["events"])
     ctx.log(f"S3: {len(traces)} traces recorded")
-    nnum = validate_traces(ctx, traces)
+    try:
+        nnum = validate_traces(ctx, traces)
+    except (tlc.TLCFailure, RuntimeError) as e:
+        if not ctx.violations:
+            raise
+        # an implementation that already disagrees with the specification can drive the recorded
+        # histories into states on which the operators are not defined: report what was found
+        ctx.note(f"S3 could not be evaluated after {len(ctx.violations)} violations were found: {str(e)[:300]}")
+        return
     nev = sum(len(t) for t in traces)
     per, ocs = {}, {}
     for t in traces:
